@@ -12,6 +12,8 @@ import Csvq.Gen.DmlFacts
 import Csvq.Ref.DmlFacts
 import Csvq.Model.Sort
 import Csvq.Gen.SortFacts
+import Csvq.Model.CopySites
+import Csvq.Ref.CopyFacts
 namespace Csvq.C05
 open Csvq Csvq.Dml
 
@@ -1364,6 +1366,118 @@ theorem outer_join_keeps_preserved_side (on : Row → Row → Except Err Tern)
           · left; exact ⟨j, hj, List.mem_append_right _ hmem⟩
           · right; exact List.mem_append_right _ hmem
 
+/-! ## multi-table UPDATE over USING / NATURAL joins: the write-back goes by the TABLE's header, not by the joined view's layout
+
+  joinViews moves the merged columns of a USING / NATURAL join to the front of the joined view and drops both originals
+  (`joinedLayout`): behind it, a table's columns no longer follow its internal-id column one by one.  Update resolves the SET
+  column in the joined view only to find its TABLE (FieldViewName); the position it writes is looked up in that table's own
+  header (`viewsToUpdate[ref].Header.SearchIndex`).  Seed C05-m17 took "position in the joined view − position of the id
+  column − 1" instead: one column too far left behind every join column. -/
+
+theorem updateTargets_frame (ts : Tables) (froms : List String) (view : List JRow) (sets : List (String × SetItem (List Row))) :
+    ∀ (targets : List String) (outs : List Out), updateTargets ts froms view sets targets = .ok outs →
+    ∀ o ∈ outs, ∃ t, lookupT ts o.name = some t ∧ o.table.header = t.header ∧ o.table.rows.length = t.rows.length ∧
+      ∀ i j, cellAt o.table.rows i j ≠ cellAt t.rows i j →
+        ∃ s ∈ sets, s.1 = o.name ∧ colIndex t.header s.2.field = .ok j := by
+  intro targets
+  induction targets with
+  | nil => intro outs h o ho; simp [updateTargets] at h; subst h; cases ho
+  | cons tn rest ih =>
+    intro outs h o ho
+    unfold updateTargets at h
+    cases hg : getCopy ts tn with
+    | error e => simp [hg] at h
+    | ok t =>
+      simp only [hg] at h
+      cases hp : firstIdx tn froms with
+      | none => simp [hp] at h
+      | some p =>
+        simp only [hp] at h
+        split at h
+        · cases h
+        · rename_i t' n hu
+          cases hrest : updateTargets ts froms view sets rest with
+          | error e => simp [hrest] at h
+          | ok outs' =>
+            simp only [hrest] at h
+            cases h
+            cases ho with
+            | tail _ hm => exact ih outs' hrest o hm
+            | head =>
+              obtain ⟨u1, u2, _, _⟩ := updateCore_ok _ _ t t' n hu
+              obtain ⟨hl, hf⟩ := update_view_frame t.header (List.map Prod.snd (sets.filter fun s => s.1 = tn))
+                (List.map (fun jr => (jid p jr, jctx jr)) view) t.rows
+              refine ⟨t, getCopy_lookup ts tn t hg, u1, by simp only; rw [u2]; exact hl, ?_⟩
+              intro i j hne
+              simp only at hne
+              rw [u2] at hne
+              obtain ⟨_, s, hs, hc⟩ := hf i j hne
+              obtain ⟨s0, hs0, rfl⟩ := List.mem_map.mp hs
+              have hmem := List.mem_filter.mp hs0
+              exact ⟨s0, hmem.1, by simpa using hmem.2, hc⟩
+
+/-- WHATEVER THE JOIN — cross, ON, LEFT / RIGHT / FULL, USING, NATURAL, i.e. whatever the layout of the joined view —: a
+    successful multi-table UPDATE keeps every target's header and number of records, and a cell (record i, column j) of a
+    target differs from before only if j is the position IN THAT TABLE'S HEADER of a column named by a SET item of that table -/
+theorem update_writes_named_column_any_join (ts : Tables) (targets froms : List String) (join : Join)
+    (cond : List Row → Except Err Tern) (sets : List (String × SetItem (List Row))) (outs : List Out)
+    (hk : body ts (.updateMulti targets froms join cond sets) = .ok outs) :
+    ∀ o ∈ outs, ∃ t, lookupT ts o.name = some t ∧ o.table.header = t.header ∧ o.table.rows.length = t.rows.length ∧
+      ∀ i j, cellAt o.table.rows i j ≠ cellAt t.rows i j →
+        ∃ s ∈ sets, s.1 = o.name ∧ colIndex t.header s.2.field = .ok j := by
+  simp only [body] at hk
+  cases hj : joinedView ts froms join cond with
+  | error e => simp [hj] at hk
+  | ok view =>
+    simp only [hj] at hk
+    split at hk
+    · cases hk
+    · exact updateTargets_frame ts froms _ sets targets outs hk
+
+/-- the layout of the joined view of `a(id, x, k, y) JOIN b(k, p) USING (k)`, and why a position in it is not a position in
+    the table: `a.y` stands at 4, a's id column at 1 — 4 − 1 − 1 = 2 is the position of `k` in a's header, `y` is at 3
+    (the rule of C05-m17 writes `y`'s value into `k`); without USING the same arithmetic happens to be right -/
+theorem joined_position_is_not_table_position :
+    joinedLayout "a" "b" ["id", "x", "k", "y"] ["k", "p"] ["k"] =
+      [("", "k"), ("a", idColumn), ("a", "id"), ("a", "x"), ("a", "y"), ("b", idColumn), ("b", "p")] ∧
+    firstIdx ("a", "y") (joinedLayout "a" "b" ["id", "x", "k", "y"] ["k", "p"] ["k"]) = some 4 ∧
+    firstIdx ("a", idColumn) (joinedLayout "a" "b" ["id", "x", "k", "y"] ["k", "p"] ["k"]) = some 1 ∧
+    (colIndex ["id", "x", "k", "y"] "y").toOption = some 3 ∧ (colIndex ["id", "x", "k", "y"] "k").toOption = some 2 ∧
+    -- before the join column the arithmetic agrees, behind it it is one too small
+    firstIdx ("a", "x") (joinedLayout "a" "b" ["id", "x", "k", "y"] ["k", "p"] ["k"]) = some 3 ∧
+    (colIndex ["id", "x", "k", "y"] "x").toOption = some 1 ∧
+    -- without merged columns (cross / ON joins) every column of `a` stands at 1 + its header position
+    (["id", "x", "k", "y"].map fun c => firstIdx ("a", c) (joinedLayout "a" "b" ["id", "x", "k", "y"] ["k", "p"] [])) =
+      [some 1, some 2, some 3, some 4] := by decide
+
+/-! ## one FileInfo per table and transaction (extract/copyfacts, REGENERATED on every run)
+
+  A data-changing statement publishes its view with the FileInfo the table was loaded with; UncommittedViews registers that
+  FileInfo at the table's FIRST change and COMMIT encodes every table with the registered one.  A statement that puts a
+  private COPY of the FileInfo on its view (C05-m18: AddColumns clearing the delimiter positions of a fixed-length table on a
+  copy; C02-m13: SetTableAttribute on a copy) changes attributes that COMMIT never sees when it is a LATER change of the
+  transaction. -/
+
+open Csvq.CopySites Csvq.CopyDepth in
+/-- no data-changing function (nor a view method it calls) makes a struct copy of a FileInfo, and the only assignment that
+    gives a view another FileInfo is CreateTable's (a new table: nothing registered yet); the one struct copy in lib/query is
+    loadView's, for the RESULT OF A SUB-QUERY (F46: it must not rewrite the FileInfo of the table it was read from) -/
+theorem no_fileinfo_copy_installed_on_cached_view :
+    fileInfoProblems Csvq.Gen.fileInfoCopies Csvq.Gen.fileInfoInstalls = [] ∧
+    Csvq.Gen.fileInfoCopies.map (fun w => (w.fn, w.target, w.level)) = [("loadView", "*view.FileInfo", "other")] ∧
+    Csvq.Gen.fileInfoInstalls.map (fun w => (w.fn, w.target)) = [("CreateTable", "view.FileInfo")] := by decide
+
+open Csvq.CopySites Csvq.CopyDepth in
+/-- not vacuous: the shape of C05-m18 (`fileInfo := *view.FileInfo; …; view.FileInfo = &fileInfo` in AddColumns) is rejected
+    with both sites named -/
+theorem rejects_fileinfo_copy_in_add_columns :
+    fileInfoProblems [⟨"loadView", "load_view.go", "load_view.go:408", "*view.FileInfo", "other"⟩,
+                      ⟨"AddColumns", "query.go", "query.go:904", "*view.FileInfo", "dml"⟩]
+                     [⟨"AddColumns", "query.go", "query.go:906", "view.FileInfo", "viewStruct"⟩,
+                      ⟨"CreateTable", "query.go", "query.go:781", "view.FileInfo", "viewStruct"⟩] =
+      ["AddColumns at query.go:904: struct copy *view.FileInfo of a FileInfo inside a data-changing function",
+       "AddColumns at query.go:906: view.FileInfo is given another FileInfo than the one the transaction has registered"] := by decide
+
 /-! ## non-vacuity: the hypotheses are satisfiable and the operations do something -/
 
 def ints (t : Table) : List (List (Option Int)) := t.rows.map fun r => r.map fun c => c.int?
@@ -1457,5 +1571,24 @@ example : outsOf (body ojTs (.deleteMulti ["a", "b"] ["a", "b"] (.outer .right o
 example : errOf (body ojTs (.updateMulti ["b"] ["a", "b"] (.outer .left ojOn) ojTrue [("b", ⟨"k", fun _ => .ok (cex 7)⟩)])) = some 12202 := by decide
 example : outsOf (body ojTs (.updateMulti ["a"] ["a", "b"] (.outer .left ojOn) ojTrue [("a", ⟨"x", fun _ => .ok (cex 7)⟩)])) =
     some (["a"], [[some 0, some 7], [some 1, some 7], [some 2, some 7]], [3]) := by decide
+
+/-! ### USING / NATURAL joins: `ujA(id, x, k, y)`, `ujB(k, p)`; rows of A with k = 0, 1, 2; rows of B with k = 1, 2, 7 -/
+def ujA : Table := { header := ["id", "x", "k", "y"], rows := [[cex 0, cex 10, cex 0, cex 20], [cex 1, cex 11, cex 1, cex 21], [cex 2, cex 12, cex 2, cex 22]] }
+def ujB : Table := { header := ["k", "p"], rows := [[cex 1, cex 31], [cex 2, cex 32], [cex 7, cex 37]] }
+def ujTs : Tables := [("a", ujA), ("b", ujB)]
+def ujEq (x y : Cell) : Tern := match x.int?, y.int? with | some i, some j => if i = j then .T else .F | _, _ => .U
+-- the joined records of A JOIN B USING (k), A LEFT JOIN B USING (k), A NATURAL FULL JOIN B (ids of A, ids of B)
+example : ((joinedView ujTs ["a", "b"] (.using none (some ["k"]) ujEq) ojTrue).toOption.map fun v => v.map fun x => (jid 0 x.2, jid 1 x.2)) =
+    some [(some 1, some 0), (some 2, some 1)] := by decide
+example : ((joinedView ujTs ["a", "b"] (.using (some .left) (some ["k"]) ujEq) ojTrue).toOption.map fun v => v.map fun x => (jid 0 x.2, jid 1 x.2)) =
+    some [(some 0, none), (some 1, some 0), (some 2, some 1)] := by decide
+example : ((joinedView ujTs ["a", "b"] (.using (some .full) none ujEq) ojTrue).toOption.map fun v => v.map fun x => (jid 0 x.2, jid 1 x.2)) =
+    some [(some 0, none), (some 1, some 0), (some 2, some 1), (none, some 2)] := by decide
+-- UPDATE a SET a.y = 7 FROM a JOIN b USING (k): the value lands in column `y` (position 3 of a's header) of the two joined records
+example : outsOf (body ujTs (.updateMulti ["a"] ["a", "b"] (.using none (some ["k"]) ujEq) ojTrue [("a", ⟨"y", fun _ => .ok (cex 7)⟩)])) =
+    some (["a"], [[some 0, some 10, some 0, some 20], [some 1, some 11, some 1, some 7], [some 2, some 12, some 2, some 7]], [2]) := by decide
+-- a repeated and an unknown USING column are refused
+example : errOf (joinedView ujTs ["a", "b"] (.using none (some ["k", "k"]) ujEq) ojTrue) = some 10104 := by decide
+example : errOf (joinedView ujTs ["a", "b"] (.using none (some ["k", "x"]) ujEq) ojTrue) = some 10102 := by decide
 
 end Csvq.C05
